@@ -50,17 +50,25 @@ theorem C19_change_keeps_stamp (w : World) (ps : List (Str × Val)) :
 
 /-- the operations that may stamp -/
 def stamper : Op → Bool
-  | .setValue _ | .update _ | .create _ | .stampNow => true
+  | .setValue _ | .update _ | .create _ | .stampNow | .setData _ => true
   | _ => false
 
-/-- **Only value, update, create and stampNow touch the stamp**: every other operation (item
-assignment, deletion, reads, deck traffic, the store's clock moving, attaching another store)
-leaves it as it was. -/
+/-- **Only value, update, create, stampNow and assigning a whole data record touch the stamp**:
+every other operation (item assignment, deletion, insert, reorder, reads, sift, copy, truth, the
+unit record, deck traffic, the caller mutating its objects, the store's clock moving, attaching
+another store) leaves it as it was. -/
 theorem C19_only_stampers_stamp (w : World) (op : Op) (h : stamper op = false) :
     (step w op).1.stamp = w.stamp := by
-  cases op <;> simp only [stamper] at h <;> try (simp at h)
-  all_goals simp only [step]
-  all_goals (first | rfl | (split <;> first | rfl | (split <;> first | rfl | (split <;> rfl))))
+  cases op with
+  | sift fs => cases fs <;> (simp only [step]; split <;> rfl)
+  | setValue v => simp [stamper] at h
+  | update ps => simp [stamper] at h
+  | create ps => simp [stamper] at h
+  | stampNow => simp [stamper] at h
+  | setData ps => simp [stamper] at h
+  | _ =>
+    simp only [step]
+    all_goals (first | rfl | (split <;> first | rfl | (split <;> first | rfl | (split <;> rfl))))
 
 /-- `stampNow` forces the stamp and returns it -/
 theorem C19_stampNow (w : World) :
@@ -398,6 +406,195 @@ example :
     (step demo6 (.update [("c".toList, .int 1), ("9".toList, .int 1)])).2 = .err .attributeError ∧
     demo6.deck = [.int 7, .int 8] ∧ (step demo6 .spew).2 = .val (.int 7) := by decide
 
+/-! ## sift, copy, reorder, the data record -/
+
+theorem lookups_ok (raw : List (Str × Val)) (ks : List Str)
+    (h : ∀ k ∈ ks, (lookup raw k).isSome = true) :
+    ks.mapM (siftGet raw) = .ok (ks.filterMap (fun k => (lookup raw k).map (fun v => (k, v)))) := by
+  induction ks with
+  | nil => rfl
+  | cons k ks ih =>
+    have hk := h k (List.mem_cons_self ..)
+    have ih' := ih (fun j hj => h j (List.mem_cons_of_mem _ hj))
+    cases hl : lookup raw k with
+    | none => rw [hl] at hk; simp at hk
+    | some v =>
+      have hg : siftGet raw k = .ok (k, v) := by simp [siftGet, hl]
+      simp only [List.mapM_cons, hg, ih', List.filterMap_cons, hl, Option.map_some]
+      rfl
+
+/-- **`sift` and `copy` are reads of the ordered map**: they never change the share; `sift()` and
+`copy()`/`copyDataDict()` return `items()`; `sift(fields)` returns the named fields in the order
+asked (a repeated name once, at its first place) when all of them are fields. -/
+theorem C19_sift_copy_read (w : World) (hs : Sync w.data) :
+    step w (.sift none) = (w, .pairs (view w.data)) ∧
+    step w .copy = (w, .pairs (view w.data)) ∧
+    (∀ fs, (step w (.sift (some fs))).1 = w) ∧
+    (∀ fs, (∀ k ∈ fs, k ∈ w.data.keys) →
+      (step w (.sift (some fs))).2 =
+        .pairs (fs.eraseDups.filterMap (fun k => (lookup w.data.raw k).map (fun v => (k, v))))) := by
+  refine ⟨?_, ?_, ?_, ?_⟩
+  · simp [step, items_eq_view hs]
+  · simp [step, items_eq_view hs]
+  · intro fs; simp only [step]; split <;> rfl
+  · intro fs hfs
+    have hin : ∀ k ∈ fs.eraseDups, (lookup w.data.raw k).isSome = true := by
+      intro k hk
+      exact hs.keysInRaw k (hfs k (List.mem_eraseDups.mp hk))
+    have hl := lookups_ok w.data.raw fs.eraseDups hin
+    simp only [step, hl]
+
+/-- a name that is not a field makes `sift` raise AttributeError -/
+example : (step demo6 (.sift (some ["b".toList, "zz".toList]))).2 = .err .attributeError ∧
+    (step demo6 (.sift (some ["a".toList, "b".toList, "a".toList]))).2 =
+      .pairs [("a".toList, .int 3), ("b".toList, .int 2)] ∧
+    (step demo6 .copy).2 = .pairs [("b".toList, .int 2), ("a".toList, .int 3)] := by decide
+
+/-- **Assigning a whole data record** (`share.data = Data(pairs)`): if every name is a public
+identifier the fields become exactly the record built from the pairs and the share is stamped
+with its store's time; otherwise the assignment raises before anything changes. -/
+theorem C19_data_assignment_stamps (w : World) (ps : List (Str × Val)) :
+    ((step w (.setData ps)).2 = .unit →
+      (step w (.setData ps)).1.data = (changeLoop ⟨[], []⟩ ps).1 ∧
+      (step w (.setData ps)).1.stamp = storeStamp w) ∧
+    ((step w (.setData ps)).2 ≠ .unit → (step w (.setData ps)).1 = w) := by
+  simp only [step]
+  cases hr : changeLoop ⟨[], []⟩ ps with
+  | mk d e => cases e <;> simp [restamp, storeStamp]
+
+example : (step demo1 (.setData [("q".toList, .flt 5), ("r".toList, .tup [1, 2])])).1.stamp = some 16 ∧
+    (step (step demo1 (.setData [("q".toList, .flt 5), ("r".toList, .tup [1, 2])])).1 .items).2 =
+      .pairs [("q".toList, .flt 5), ("r".toList, .tup [1, 2])] ∧
+    step demo1 (.setData [("q".toList, .int 1), ("_r".toList, .int 2)]) = (demo1, .err .attributeError) := by
+  decide
+
+/-- **`reorder` with one pair** (repair D11h): a name that is neither a field nor a public
+identifier is refused and nothing changes; otherwise the key gets the value and moves to the end
+of `keys()`, every other key keeps its place and value.  (Several pairs are this, pair after
+pair — `sync_reorderFold`; the closed form for a list is not stated.) -/
+theorem C19_fields_ordered_map_reorder_partial (w : World) (hs : Sync w.data) (k : Str) (v : Val) :
+    ((lookup w.data.raw k).isNone = true → identPub k = false →
+      step w (.reorder [(k, v)]) = (w, .err .keyError)) ∧
+    (((lookup w.data.raw k).isSome = true ∨ identPub k = true) →
+      (step w (.reorder [(k, v)])).2 = .unit ∧
+      (step w (.reorder [(k, v)])).1.data.keys = w.data.keys.erase k ++ [k] ∧
+      (∀ j, lookup (step w (.reorder [(k, v)])).1.data.raw j = if k = j then some v else lookup w.data.raw j) ∧
+      Sync (step w (.reorder [(k, v)])).1.data) := by
+  constructor
+  · intro h1 h2
+    simp [step, h1, h2]
+  · intro h
+    have hc : ([(k, v)].any fun p => (lookup w.data.raw p.1).isNone && !identPub p.1) = false := by
+      rcases h with h1 | h1
+      · cases hl : lookup w.data.raw k <;> simp_all
+      · simp [h1]
+    have hstep : step w (.reorder [(k, v)]) =
+        ({ w with data := ⟨rawSet w.data.raw k v, w.data.keys.erase k ++ [k]⟩ }, .unit) := by
+      simp only [step, hc, Bool.false_eq_true, if_false, List.foldl_cons, List.foldl_nil]
+    rw [hstep]
+    exact ⟨rfl, rfl, fun j => lookup_rawSet _ _ _ _, sync_moveToEnd hs k v h⟩
+
+example : (step (step demo6 (.reorder [("b".toList, .int 9)])).1 .items).2 =
+      .pairs [("a".toList, .int 3), ("b".toList, .int 9)] ∧
+    step demo6 (.reorder [("a".toList, .int 1), ("_z".toList, .int 2)]) = (demo6, .err .keyError) := by decide
+
+/-! ## values are aliased, never copied -/
+
+/-- **The share keeps the object it was given.**  Store one of the caller's mutable objects
+(`ref id`: a list, a dict) in a field; let the caller append to that object afterwards: the field
+still holds that very object (`getItem` returns `ref id`), whose contents now include the new
+element — `update/change/create/[]=` and the deck never copy a value.  `mutate` itself changes
+nothing in the share. -/
+theorem C19_values_are_aliased (w : World) (hs : Sync w.data) (k : Str) (hp : identPub k = true)
+    (id : Nat) (n : Int) :
+    (step (step (step w (.setItem k (.ref id))).1 (.mutate id n)).1 (.getItem k)).2 = .val (.ref id) ∧
+    (step (step w (.setItem k (.ref id))).1 (.mutate id n)).1.data = (step w (.setItem k (.ref id))).1.data ∧
+    (step w (.mutate id n)).1 =
+      { w with pool := w.pool.mapIdx (fun i l => if i = id then l ++ [n] else l) } := by
+  have h := view_setattr hs hp (.ref id)
+  have hs' : Sync (setattr w.data k (.ref id)).1 := sync_setattr hs k _
+  refine ⟨?_, rfl, rfl⟩
+  simp only [step]
+  have : lookup (setattr w.data k (.ref id)).1.raw k = some (.ref id) := by
+    rw [← lookup_view_eq_raw hs', h.2, lookup_rawSet]; simp
+  rw [this]
+
+example :
+    (run init [.setItem "a".toList (.ref 1), .push (.ref 1), .mutate 1 7, .update [("b".toList, .ref 1)],
+               .mutate 1 8]).pool = [[], [7, 8], [], []] ∧
+    (step (run init [.setItem "a".toList (.ref 1), .push (.ref 1), .mutate 1 7,
+                     .update [("b".toList, .ref 1)], .mutate 1 8]) .items).2 =
+      .pairs [("a".toList, .ref 1), ("b".toList, .ref 1)] ∧
+    (step (run init [.setItem "a".toList (.ref 1), .push (.ref 1), .mutate 1 7]) .spew).2 = .val (.ref 1) := by
+  decide
+
+/-! ## truth and the unit record; deck and fields -/
+
+/-- the operations on truth, the unit record, and the caller's objects -/
+def sideOp : Op → Bool
+  | .setTruth _ | .getTruth | .changeUnit _ | .createUnit _ | .fetchUnit _ | .ctorUnit _ | .mutate _ _ => true
+  | _ => false
+
+def deckOp : Op → Bool
+  | .push _ | .pull | .gulp _ | .spew => true
+  | _ => false
+
+/-- **Truth, the unit record and deck traffic never touch fields or stamp; only deck operations
+touch the deck.**  (Field updates and deck operations interleave freely: neither sees the other.) -/
+theorem C19_frames (w : World) (op : Op) :
+    ((sideOp op = true ∨ deckOp op = true) →
+      (step w op).1.data = w.data ∧ (step w op).1.stamp = w.stamp) ∧
+    (deckOp op = false → (step w op).1.deck = w.deck) := by
+  constructor
+  · intro h
+    cases op <;> simp only [sideOp, deckOp, Bool.false_eq_true, or_self] at h
+    all_goals (first | exact ⟨rfl, rfl⟩ |
+      (simp only [step]; repeat' split) <;> (first | exact ⟨rfl, rfl⟩ | simp))
+  · intro h
+    rw [step_deck]
+    cases op <;> simp only [deckOp, Bool.true_eq_false] at h <;> rfl
+
+theorem unit_sync_step (w : World) (op : Op) (hw : ∀ u, w.unit = some u → Sync u) :
+    ∀ u, (step w op).1.unit = some u → Sync u := by
+  intro u hu
+  have hbase : Sync (w.unit.getD ⟨[], []⟩) := by
+    cases hx : w.unit with
+    | none => exact sync_empty
+    | some x => exact hw x hx
+  cases op with
+  | sift fs => cases fs <;> (simp only [step] at hu; split at hu <;> exact hw u hu)
+  | changeUnit ps =>
+    simp only [step, Option.some.injEq] at hu
+    subst hu; exact sync_changeLoop hbase _
+  | createUnit ps =>
+    simp only [step, Option.some.injEq] at hu
+    subst hu; exact sync_createLoop hbase _ _
+  | _ =>
+    simp only [step] at hu
+    all_goals first
+      | exact hw u hu
+      | (split at hu <;> first | exact hw u hu | (split at hu <;> first | exact hw u hu | (split at hu <;> exact hw u hu)))
+
+theorem unit_sync_run (ops : List Op) : ∀ (w : World), (∀ u, w.unit = some u → Sync u) →
+    ∀ u, (run w ops).unit = some u → Sync u := by
+  induction ops with
+  | nil => intro w hw; exact hw
+  | cons op ops ih => intro w hw; exact ih (step w op).1 (unit_sync_step w op hw)
+
+/-- the unit record obeys the same name rule: every history, every name of the unit record is a
+public identifier and its `items()` never raises -/
+theorem C19_unit_names_public (ops : List Op) (u : Data) (h : (run init ops).unit = some u) : Sync u := by
+  refine unit_sync_run ops init ?_ u h
+  intro u hu
+  simp [init] at hu
+
+example :
+    (run init [.changeUnit [("value".toList, .str "m".toList)], .createUnit [("value".toList, .none), ("x".toList, .int 1)]]).unit =
+      some ⟨[("value".toList, .str "m".toList), ("x".toList, .int 1)], ["value".toList, "x".toList]⟩ ∧
+    (step init (.ctorUnit [("_bad".toList, .int 1)])).2 = .err .attributeError ∧
+    (step init (.ctorUnit [("value".toList, .str "m".toList)])).2 = .pairs [("value".toList, .str "m".toList)] := by
+  decide
+
 end Ioflo.Share
 
 #print axioms Ioflo.Share.C19_value_update_stamp
@@ -419,3 +616,9 @@ end Ioflo.Share
 #print axioms Ioflo.Share.C19_gulp_ignores_none
 #print axioms Ioflo.Share.C19_spew_none_iff_empty_partial
 #print axioms Ioflo.Share.C19_counterexample_push_none
+#print axioms Ioflo.Share.C19_sift_copy_read
+#print axioms Ioflo.Share.C19_data_assignment_stamps
+#print axioms Ioflo.Share.C19_fields_ordered_map_reorder_partial
+#print axioms Ioflo.Share.C19_values_are_aliased
+#print axioms Ioflo.Share.C19_frames
+#print axioms Ioflo.Share.C19_unit_names_public
